@@ -140,11 +140,25 @@ def nullable_after_group(proto: dict[str, Any]) -> bool:
 
     found = False
 
+    def starts_nullable(d: Any) -> bool:
+        """d is nullable or can begin with an empty nullable element (groups flatten: `(<s>? <m>)` begins with <s>?)."""
+        if _nullable_ir(d, rules):
+            return True
+        if d[0] == "seq":
+            return bool(d[1]) and starts_nullable(d[1][0])
+        if d[0] == "alt":
+            return any(starts_nullable(c) for c in d[1])
+        if d[0] == "nt" and len(d) == 2:
+            return starts_nullable(rules[d[1]])
+        if d[0] in ("plus", "rep"):
+            return starts_nullable(d[1])
+        return False
+
     def walk(n: Any) -> None:
         nonlocal found
         if n[0] == "seq":
             for i, c in enumerate(n[1][:-1]):
-                if multi(c) and any(_nullable_ir(d, rules) for d in n[1][i + 1:]):
+                if multi(c) and any(starts_nullable(d) for d in n[1][i + 1:]):
                     found = True
             for c in n[1]:
                 walk(c)
@@ -393,21 +407,23 @@ def check_case(case: dict[str, Any], ctx: Any = None) -> list[str]:
         got = offered(pred)
         want = first(r)
         if got != want:
-            tag = ""
-            if got > want and (got - want) <= symbols(r) and nullable_after_group(proto):
-                # known finding C19/skips-open-group: prefix-mode parsing also yields partial trees in which an
-                # unfinished group is followed by an (empty) nullable element; the forecast then offers what
-                # comes after the group
-                tag = "[known:skips-open-group] "
-                if ctx is not None:
+            extra, missing = got - want, want - got
+            # known finding C19/skips-open-group: prefix-mode parsing also yields partial trees in which an unfinished
+            # group is followed by an (empty) nullable element; the forecast then offers what comes after the group
+            extra_known = bool(extra) and extra <= symbols(r) and nullable_after_group(proto)
+            # known finding C19/merged-recipients: options are keyed by (sender, message type); the same message type
+            # sent by the same party to another recipient is merged into the first one found
+            missing_known = bool(missing) and all(any(g[0] == w[0] and g[2] == w[2] and g[1] != w[1] for g in got) for w in missing)
+            if extra:
+                tag = "[known:skips-open-group] " if extra_known else ""
+                if extra_known and ctx is not None:
                     ctx.count("known:skips-open-group")
-            elif got < want and all(any(g[0] == w[0] and g[2] == w[2] and g[1] != w[1] for g in got) for w in want - got):
-                # known finding C19/merged-recipients: options are keyed by (sender, message type); the same message
-                # type sent by the same party to another recipient is merged into the first one found
-                tag = "[known:merged-recipients] "
-                if ctx is not None:
+                msgs.append(f"{tag}history {h}: forecast offers {sorted(got)}, the grammar allows {sorted(want)} next (not allowed: {sorted(extra)})")
+            if missing:
+                tag = "[known:merged-recipients] " if missing_known else ""
+                if missing_known and ctx is not None:
                     ctx.count("known:merged-recipients")
-            msgs.append(f"{tag}history {h}: forecast offers {sorted(got)}, the grammar allows {sorted(want)} next")
+                msgs.append(f"{tag}history {h}: forecast offers {sorted(got)}, the grammar allows {sorted(want)} next (not offered: {sorted(missing)})")
         comp = len(pred.complete_trees) > 0
         if not h and nullable(r) and not comp:
             # known finding C19/empty-history: predict() never evaluates completeness for the empty history
@@ -461,8 +477,8 @@ def run_shard(ctx: Any) -> None:
 
 def classify(case: dict[str, Any], msgs: list[str]) -> Any:
     keys = {m[len("[known:"):m.index("]")] for m in msgs if m.startswith("[known:")}
-    if msgs and all(m.startswith("[known:") for m in msgs) and len(keys) == 1:
-        return keys.pop()
+    if msgs and all(m.startswith("[known:") for m in msgs):
+        return sorted(keys)[0]  # every message belongs to a listed class (possibly two of them in one spec)
     return None
 
 
